@@ -568,6 +568,39 @@ func checkStubInstalledWithContinuation(p *Prog, r *Report, rule string, only fu
 	if n == 0 {
 		r.Und(rule, "continuation-creating methods", "", "none found")
 	}
+	// where one function both installs the stub and records the continuation itself, the continuation is recorded only
+	// once the install succeeded: an install that panics (rejected template) must not leave a never-installed continuation
+	// behind, to which the next, well-formed instruction would merely be appended
+	for _, f := range root {
+		if f.Signature.Recv() == nil || (only != nil && !only(f)) || !reach[f] {
+			continue
+		}
+		var installs []ssa.Instruction
+		var contStores []*ssa.Store
+		eachInstr(f, func(i ssa.Instruction) {
+			if isInstallCall(i) {
+				installs = append(installs, i)
+			}
+			if st, ok := i.(*ssa.Store); ok && !isNilConst(st.Val) {
+				if fa, ok := st.Addr.(*ssa.FieldAddr); ok && fieldVar(fa.X.Type(), fa.Field) == contFld && !isLocalAddr(fa.X) {
+					contStores = append(contStores, st)
+				}
+			}
+		})
+		if len(installs) == 0 {
+			continue
+		}
+		for _, st := range contStores {
+			okOrder := false
+			for _, in := range installs {
+				if domInstr(in, st) {
+					okOrder = true
+				}
+			}
+			r.Check(okOrder, rule, "continuation recorded after the install in "+shortName(f), p.Pos(posOf(st)), "the installing call dominates the store of the continuation",
+				"the When continuation is recorded before the stub is installed: if the install is rejected (panics) a never-installed continuation stays behind and the next instruction for the same target is appended to it instead of being applied")
+		}
+	}
 	// every exported Apply installs its callback on every path (no "same callback, skip" shortcuts)
 	for _, f := range root {
 		if f.Object() == nil || f.Name() != "Apply" || f.Signature.Recv() == nil || (only != nil && !only(f)) || !reach[f] {
